@@ -40,6 +40,7 @@ type Env struct {
 func scratchBase(fallback string) (string, error) {
 	tag := fmt.Sprintf("verif-sessx-%d", os.Getpid())
 	if st, err := os.Stat("/dev/shm"); err == nil && st.IsDir() {
+		removeStale("/dev/shm")
 		if d, err := os.MkdirTemp("/dev/shm", tag+"-"); err == nil {
 			return d, nil
 		}
@@ -47,7 +48,23 @@ func scratchBase(fallback string) (string, error) {
 	if err := os.MkdirAll(fallback, 0o755); err != nil {
 		return "", err
 	}
+	removeStale(fallback)
 	return os.MkdirTemp(fallback, tag+"-")
+}
+
+// removeStale deletes scratch areas left behind by driver processes that no
+// longer exist (a crash inside a controller goroutine cannot be recovered).
+func removeStale(dir string) {
+	items, _ := filepath.Glob(filepath.Join(dir, "verif-sessx-*"))
+	for _, it := range items {
+		var pid int
+		if _, err := fmt.Sscanf(filepath.Base(it), "verif-sessx-%d-", &pid); err != nil || pid <= 0 {
+			continue
+		}
+		if _, err := os.Stat(fmt.Sprintf("/proc/%d", pid)); os.IsNotExist(err) {
+			os.RemoveAll(it)
+		}
+	}
 }
 
 // NewEnv creates the scratch area (data directory and roots live on the same
